@@ -283,19 +283,14 @@ f_find_object (void)
     ob = find_or_load_object (sp->u.string);
   else
     ob = find_object_by_name (sp->u.string);
+  /* object_visible() asks the master about a hidden object: that is LPC code, which can
+   * raise an error (the name must still be a valid string on the stack then) and can
+   * destruct the object */
+  if (ob && !object_visible (ob))
+    ob = 0;
   free_string_svalue (sp);
   if (ob)
-    {
-      object_t *old_ob = ob;
-      /* object_visible might change ob, a global - Sym */
-      if (object_visible (ob))
-        {
-          /* find_object only returns undested objects */
-          put_unrefed_undested_object (old_ob, "find_object");
-        }
-      else
-        *sp = const0;
-    }
+    put_unrefed_object (ob, "find_object");
   else
     *sp = const0;
 }
